@@ -773,23 +773,8 @@ func main() {
 		}
 		c.Note("adversarial list: %d inputs; corpus files: %d", len(adversarial), len(corpus))
 
-		// (a) grammar programs, raw and mutated
-		nprog := c.Scale(260, 5000)
-		for i := 0; i < nprog; i++ {
-			r := c.Rng.Fork()
-			p := program(r)
-			small := len(p) <= 700
-			eval(mk("grammar", p), small)
-			for j := 0; j < 2; j++ {
-				m := mutate(r, p)
-				eval(mk("grammar-mutated", m), small && j == 0)
-			}
-			for j := 0; j < c.Scale(6, 10); j++ {
-				eval(mk("grammar-mutated", mutate(r, p)), false)
-			}
-		}
-
-		// (b) repository BUILD files
+		// (a) grammar programs, raw and mutated; (b) repository BUILD files; (c) random bytes - interleaved so that
+		// the model cases of every kind are spread evenly over the case files
 		files := repoFiles(repo)
 		c.Note("repository BUILD/build_defs files: %d", len(files))
 		for i, f := range files {
@@ -799,21 +784,27 @@ func main() {
 				eval(mk("repo-file-mutated", mutate(r, f)), false)
 			}
 		}
-		nwin := c.Scale(200, 4000)
-		for i := 0; i < nwin && len(files) > 0; i++ {
+		niter := c.Scale(260, 5000)
+		for i := 0; i < niter; i++ {
 			r := c.Rng.Fork()
-			w := window(r, lib.Pick(r, files), 500)
-			eval(mk("repo-window", w), i%2 == 0)
-			eval(mk("repo-window-mutated", mutate(r, w)), true)
-			for j := 0; j < c.Scale(5, 10); j++ {
-				eval(mk("repo-window-mutated", mutate(r, w)), false)
+			p := program(r)
+			small := len(p) <= 600
+			eval(mk("grammar", p), small)
+			for j := 0; j < 2; j++ {
+				m := mutate(r, p)
+				eval(mk("grammar-mutated", m), small && j == 0)
 			}
-		}
-
-		// (c) random bytes
-		nrand := c.Scale(250, 5000)
-		for i := 0; i < nrand; i++ {
-			r := c.Rng.Fork()
+			for j := 0; j < c.Scale(6, 10); j++ {
+				eval(mk("grammar-mutated", mutate(r, p)), false)
+			}
+			if len(files) > 0 && i%4 != 3 {
+				w := window(r, lib.Pick(r, files), 320)
+				eval(mk("repo-window", w), i%4 == 0)
+				eval(mk("repo-window-mutated", mutate(r, w)), true)
+				for j := 0; j < c.Scale(5, 10); j++ {
+					eval(mk("repo-window-mutated", mutate(r, w)), false)
+				}
+			}
 			eval(mk("random-bytes", randomBytes(r)), true)
 			for j := 0; j < c.Scale(10, 30); j++ {
 				eval(mk("random-bytes", randomBytes(r)), false)
